@@ -975,7 +975,7 @@ def switches(body, live_only=True):
 # ------------------------------------------------------------------ guard edge selection (P-cut)
 
 
-def guard_edges(body, prog, pred):
+def guard_edges(body, prog, pred, strict=False):
     """Collect the CFG edges selected by `pred(cond, polarity_or_variants, leaf)`.
 
     For bool switches pred is called per source leaf with value = the truth value of *that leaf*
@@ -983,6 +983,8 @@ def guard_edges(body, prog, pred):
     For enum switches pred is called per edge: pred(cond, variants: set[str], None).
     For int switches: pred(cond, label, None) with label = ('val', v) | ('otherwise', excluded).
     Returns the set of edge ids for which pred returned True.
+    strict: an edge of a bool switch that a LITERAL origin of the tested value also takes is not returned (the predicate says nothing
+    about how that origin got there); the default accepts the edge when any origin satisfies pred.
     """
     out = set()
     for bb in switches(body):
@@ -994,6 +996,12 @@ def guard_edges(body, prog, pred):
         elif c.kind == "bool":
             be = bool_edges(body, bb)
             for val, eid in be.items():
+                # a literal among the origins of the tested value (`let wait = match mode { Verify => false, _ => f() }`) reaches the
+                # edge it agrees with WITHOUT the predicate holding: such an edge says nothing about the other origins
+                by_literal = any(leaf.kind == "const" and op_const(leaf.data) in ("true", "false") and
+                                 (op_const(leaf.data) == "true") == ((not val) if leaf.neg else val) for leaf in c.src)
+                if by_literal and strict:
+                    continue
                 for leaf in c.src:
                     v = (not val) if leaf.neg else val
                     if pred(c, v, leaf):
@@ -1518,6 +1526,7 @@ def explore(body, cut=None, mark_edges=None, start_env=None, start_blocks=None, 
                 e[tidx[dl]] = None
             if dl in pidx:
                 e[pidx[dl]] = newp
+        const_flag = False
         if t["k"] == "switch":
             op = t["discr"]
             if op["k"] in ("copy", "move") and not op["pl"]["p"]:
@@ -1525,6 +1534,10 @@ def explore(body, cut=None, mark_edges=None, start_env=None, start_blocks=None, 
                 if dl in idx:
                     known = e[idx[dl]]
                     known = None if known is None else int(known)
+                    # the flag holds a literal on this path (`let wait = match mode { Verify => false, _ => f() }`): the branch is taken
+                    # because of the literal, not because of what a guard predicate says about the flag's OTHER origins — a cut
+                    # edge of this switch does not apply here
+                    const_flag = known is not None
                 elif dl in didx:
                     known = e[didx[dl]]
         plearn = None
